@@ -342,7 +342,7 @@ def gen_storm(st):
         if st.coin(1, 4, "secondary?"):
             scn["targets"].append("syn-y")
     scn["setup"] = ("cold", "warm", "cold+litter", "warm+litter")[st.weighted((4, 3, 1, 1), "setup")]
-    scn["home"] = ("env", "arg", "default", "env-tilde", "env-slash", "env-rel", "env-nested")[st.weighted((8, 4, 2, 1, 1, 1, 1), "home")]
+    scn["home"] = ("env", "arg", "default", "env-tilde", "env-slash", "env-rel", "env-nested", "env-nohome")[st.weighted((8, 4, 2, 1, 1, 1, 1, 1), "home")]
     scn["discipline"] = ("sticky", "uniform", "pct", "vtime")[st.weighted((3, 3, 2, 2), "discipline")]
     if scn["discipline"] == "sticky":
         scn["burst"] = st.pick((8, 2, 32, 100), "mean-burst-length")
@@ -431,10 +431,11 @@ class Run:
                      "default": os.path.join(self.user_home, ".traffic-weaver-data"),
                      "env-tilde": os.path.join(self.user_home, "custom-data"),
                      "env-slash": self.env_home,
+                     "env-nohome": self.env_home,            # HOME is not in the environment (cron, systemd, env -i)
                      "env-rel": os.path.join(self.root, "rel", "data-home"),
                      # neither the directory nor its parents exist yet (a fresh workspace)
                      "env-nested": os.path.join(self.root, "fresh", "workspace", "cache", "traffic-weaver")}[mode]
-        self.env_value = {"env": self.env_home, "env-tilde": os.path.join("~", "custom-data"),
+        self.env_value = {"env": self.env_home, "env-nohome": self.env_home, "env-tilde": os.path.join("~", "custom-data"),
                           "env-slash": self.env_home + os.sep, "env-rel": os.path.join("rel", "data-home"),
                           "env-nested": os.path.join(self.root, "fresh", "workspace", "cache", "traffic-weaver")}.get(mode, "")
         self.home_mode = mode
@@ -918,6 +919,8 @@ class Run:
     def setup(self):
         scn = self.scn
         os.environ["HOME"] = self.user_home
+        if self.home_mode == "env-nohome":
+            del os.environ["HOME"]          # the data home is named explicitly: nothing may need HOME
         if self.home_mode.startswith("env"):
             os.environ["TRAFFIC_WEAVER_DATA"] = self.env_value
             if self.home_mode == "env-rel":
